@@ -76,6 +76,7 @@ def module_event(roots, envspec, policy, fw, layout, kw=None, I=None, want=(), i
           "roots": [{"samples": [val_node(s, I) for s in samples], "name": name} for name, samples in roots],
           "rootIx": res.roots_ix,
           "opts": {"fw": fw, "layout": layout, "maxlit": int(kw.get("max_literals", 10)), "meta": bool(kw.get("meta", False)),
+                   "styled": "types_style" in kw,
                    "post": bool(kw.get("post_init_converters", False)) and fw in ("attrs", "dataclasses", "base"),
                    "cu": bool(kw.get("convert_unicode", True))},
           "graph": {"models": [], "next": 0}, "labels": {}, "parse_exc": "", "exec_exc": "", "classes": [],
@@ -322,7 +323,9 @@ def module_traces(pid, chk, cases, prefix="m"):
             evs = [module_event(c["roots"], c["envspec"], c["policy"], c["fw"], c["layout"], c["kw"], I, want=(pid,),
                                 indomain=c.get("indomain", True))]
         texts = [e.get("text") for e in evs]
-        t, inp = trace_of(tid, evs, dict(c, texts=texts))
+        c_json = dict(c, kw={k: (v if k != "types_style" else "override: %r" % {getattr(a, "__name__", str(a)): b for a, b in v.items()})
+                             for k, v in c["kw"].items()})
+        t, inp = trace_of(tid, evs, dict(c_json, texts=texts))
         traces.append(t)
         inputs[tid] = inp
     return traces, inputs
@@ -378,6 +381,11 @@ def literal_cases(chk, n):
         kw = {"max_literals": rng.choice([0, 1, 2, 3, 4, 10, 11, 12, 15, 16])}
         if rng.random() < 0.3:
             kw = {}
+        if rng.random() < 0.08:
+            # a caller that overrides the literal style explicitly (public `types_style` argument): such calls are not judged
+            # by the literal rule themselves, but nothing of their options may survive into later calls
+            from json_to_models.dynamic_typing import StringLiteral
+            kw = dict(kw, types_style={StringLiteral: {StringLiteral.TypeStyle.use_literals: rng.random() < 0.7}})
         cases.append(dict(roots=[("Root", samples)], envspec={}, policy=DR.POLICIES[1], fw=fw,
                           layout=rng.choice(["flat", "nested"]), kw=kw))
     return cases
